@@ -240,8 +240,11 @@ ACTIONS = ['actions', ['list', ['act']]]
 NAMES = ['a', 'b', 'c', 'd', 'e', 'f']
 ODD_NAMES = ['-x', 'a=b', 'a:b', 'list', 'run', 'help', 'x y', 'é', 'a*', '*.py', 'q?', 'r[1]', '*']
 GLOB_SUBNAMES = ['*.py', 'docs/*.rst', '*', 'a*', 's?x', 'q[1]', '[ab]', 'x.py']
-TARGETS = ['t1', 't2', 't3']
-FILES = ['t1', 't2', 'f1', 'f2']
+TARGETS = ['t1', 't2', 't3', './t1', 'd//t2', 'd/../t3']       # also non-normalised spellings: targets are compared as strings
+FILES = ['t1', 't2', 'f1', 'f2', './t1', 'd//t2']
+SPELLINGS = ['t1', './out.txt', 'build//gen.c', 'tmp/../out.txt', 'a/./b', 'dir/', '/abs//x', '../up', 'sp ace']
+SAME_FILE_PAIRS = [('out.txt', './out.txt'), ('build/gen.c', 'build//gen.c'), ('out.txt', 'tmp/../out.txt'),
+                   ('dir', 'dir/'), ('./out.txt', 'tmp/../out.txt')]
 
 
 def valid_value(rng, attr, names):
@@ -477,8 +480,9 @@ def seed_defect(rng, case, names, defect):
         g = rng.choice(gens)
         g['result']['items'].append({'k': 'dict', 'd': [copy.deepcopy(ACTIONS), ['basename', ['str', g['name']]]]})
     elif defect == 'dup-target' and len(dicts) >= 1:
+        sp = rng.choice(TARGETS + SPELLINGS)
         for x in rng.sample(dicts, min(2, len(dicts))):
-            set_attr(x[2], 'targets', ['list', ['t1'] if len(dicts) > 1 else ['t1', 't1']])
+            set_attr(x[2], 'targets', ['list', [sp] if len(dicts) > 1 else [sp, sp]])
     elif defect == 'dangling' and dicts:
         d = rng.choice(dicts)[2]
         kind = rng.choice(['task_dep', 'setup', 'calc_dep', 'getargs'])
@@ -683,20 +687,32 @@ def exhaustive_cases():
                                           copy.deepcopy(ACTIONS), ['task_dep', ['list', ['g:' + gname]]]]}}]},
                         ['exhaustive:glob-names']))
     # duplicate targets: inside one task, between a task and a sub-task, between two sub-tasks, group attrs / sub-task
-    T1 = ['targets', ['list', ['t1']]]
     sub = lambda n, *extra: {'k': 'dict', 'd': [copy.deepcopy(ACTIONS), ['name', ['str', n]]] + [copy.deepcopy(e) for e in extra]}
-    target_shapes = [
-        [{'name': 'f', 'line': 5, 'kind': 'func', 'result': {'k': 'dict', 'd': [copy.deepcopy(ACTIONS), ['targets', ['tuple', ['t1', 't1']]]]}}],
-        [{'name': 'f', 'line': 5, 'kind': 'func', 'result': {'k': 'dict', 'd': [copy.deepcopy(ACTIONS), T1]}},
-         {'name': 'g', 'line': 7, 'kind': 'func', 'result': {'k': 'gen', 'items': [sub('s', T1)]}}],
-        [{'name': 'g', 'line': 7, 'kind': 'func', 'result': {'k': 'gen', 'items': [sub('s', T1), sub('t', T1)]}}],
-        [{'name': 'g', 'line': 7, 'kind': 'func', 'result': {'k': 'gen', 'items': [sub('s', ['targets', ['list', ['t2', 't1', 't2']]])]}}],
-        [{'name': 'g', 'line': 7, 'kind': 'func', 'result': {'k': 'gen', 'items': [{'k': 'dict', 'd': [['name', ['none']], T1]}, sub('s', T1)]}}],
-        [{'name': 'g', 'line': 7, 'kind': 'func', 'result': {'k': 'gen', 'items': [sub('s', T1)]}},
-         {'name': 'h', 'line': 9, 'kind': 'func', 'result': {'k': 'task', 't': {'name': 'h', 'task_dep': [], 'targets': ['t1']}}}],
-    ]
-    for shp in target_shapes:
-        out.append(({'creators': copy.deepcopy(shp)}, ['exhaustive:targets']))
+    plain = lambda n, line, *extra: {'name': n, 'line': line, 'kind': 'func',
+                                     'result': {'k': 'dict', 'd': [copy.deepcopy(ACTIONS)] + [copy.deepcopy(e) for e in extra]}}
+    gen2 = lambda items: {'name': 'g', 'line': 7, 'kind': 'func', 'result': {'k': 'gen', 'items': items}}
+    for sp in SPELLINGS:       # the SAME spelling twice must be rejected, however the path is written
+        T1 = ['targets', ['list', [sp]]]
+        target_shapes = [
+            [plain('f', 5, ['targets', ['tuple', [sp, sp]]])],
+            [plain('f', 5, T1), plain('h', 6, T1)],
+            [plain('f', 5, T1), gen2([sub('s', T1)])],
+            [gen2([sub('s', T1), sub('t', T1)])],
+            [gen2([sub('s', ['targets', ['list', ['t2', sp, 't2']]])])],
+            [gen2([{'k': 'dict', 'd': [['name', ['none']], T1]}, sub('s', T1)])],
+            [gen2([sub('s', T1)]), {'name': 'h', 'line': 9, 'kind': 'func',
+                                    'result': {'k': 'task', 't': {'name': 'h', 'task_dep': [], 'targets': [sp]}}}],
+            [plain('f', 5, ['targets', ['list', ['t2', sp]]]), plain('h', 6, ['targets', ['tuple', [sp, 't3']]]),
+             plain('k', 8, ['file_dep', ['list', [sp]]])],
+        ]
+        for shp in target_shapes:
+            out.append(({'creators': copy.deepcopy(shp)}, ['exhaustive:targets']))
+    for s1, s2 in SAME_FILE_PAIRS:      # two spellings of one file are different targets for doit (compared as strings)
+        for shp in ([plain('f', 5, ['targets', ['list', [s1]]]), plain('h', 6, ['targets', ['list', [s2]]]),
+                     plain('k', 8, ['file_dep', ['list', [s1]]]), plain('m', 9, ['file_dep', ['list', [s2, s1]]])],
+                    [gen2([sub('s', ['targets', ['list', [s1]]]), sub('t', ['targets', ['list', [s2]]])])],
+                    [plain('f', 5, ['targets', ['list', [s1, s2]]])]):
+            out.append(({'creators': copy.deepcopy(shp)}, ['exhaustive:targets-spellings']))
     # pairs that interact inside Task.__init__
     for u in (['list', []], ['list', ['u']], ['tuple', []], ['tuple', ['u']]):
         for g in (['dict', []], ['dict', [['k', 'x']]], ['dict', [['k', None]]], ['dict', [['k', 'nope']]], ['bool', False]):
